@@ -32,6 +32,8 @@ in your Sphinx ``conf.py``
 
 """
 
+import inspect
+
 from sphinx.ext import autodoc
 
 from sigtools import specifiers, _util
@@ -53,12 +55,16 @@ def process_signature(app, what, name, obj, options,
     if isinstance(obj, instancemethod): # python 2 unbound methods
         obj = obj.__func__
     if isinstance(parent, type) and callable(obj):
-        obj = _util.safe_get(obj, object(), type(parent))
+        raw = inspect.getattr_static(parent, name.rpartition('.')[2], None)
+        if not isinstance(raw, staticmethod):
+            # (a static method is already what its callers call)
+            obj = _util.safe_get(obj, object(), type(parent))
     try:
         sig = specifiers.signature(obj)
-    except (TypeError, ValueError):
+    except (TypeError, ValueError, AttributeError):
         # inspect.signature raises ValueError if obj is callable but it can't
-        # determine a signature, eg. built-in objects
+        # determine a signature, eg. built-in objects; a forger looking up
+        # its target on the stand-in instance raises AttributeError
         return sig, return_annotation
     try:
         sig = sig.evaluated()
